@@ -530,7 +530,9 @@ def snapshot(v):
     if isinstance(v, I.NS):
         return I.NS(**{k: snapshot(x) for k, x in v.__dict__.items()})
     if isinstance(v, list):
-        return list(v)
+        # ghost objects and unknown-length sequences inside a list are snapshotted too (they can
+        # change in place); records keep their identity, as before
+        return [snapshot(x) if isinstance(x, (I.NS, SeqV)) else x for x in v]
     if isinstance(v, dict):
         return dict(v)
     if isinstance(v, SeqV):
